@@ -357,6 +357,54 @@ def _freq_filter_cases(H, cases):
             S2.explore(body2)
 
 
+def replay_wrappers(vals, oid):
+    """native: lp / hp / bp along every axis of 2-D and 3-D arrays against filtering each line on its own"""
+    rng = np.random.default_rng(5)
+    bad = []
+    for shape in ((6, 9), (5, 6, 7)):
+        x = rng.standard_normal(shape)
+        for name, b in (("lp", [0.1, 0.2]), ("hp", [0.1, 0.2]), ("bp", [0.05, 0.1, 0.3, 0.4])):
+            for axis in list(range(-len(shape), len(shape))) + [None]:
+                y = getattr(F, name)(x, 1.0, b, axis=axis)
+                ax = len(shape) - 1 if axis is None else axis % len(shape)
+                want = np.apply_along_axis(lambda line: F._freq_filter(line, 1.0, b, typ=name), ax, x)
+                if y.shape != x.shape or not np.allclose(y, want, atol=1e-9):
+                    bad.append({"filter": name, "shape": shape, "axis": axis})
+    return {"failed": bool(bad), "cases": bad[:4]}
+
+
+@harness(PROPERTY, "filter_wrappers", functions=["ibldsp.fourier:lp", "ibldsp.fourier:hp", "ibldsp.fourier:bp"], replay=replay_wrappers,
+         clause="low-pass, high-pass and band-pass are the filter of their name along the requested axis: the public functions hand the series, sampling interval, corners, axis and type on to _freq_filter (contract: harness filters)")
+def h_wrappers(H):
+    S = H.session("filter_wrappers")
+
+    def body(it):
+        n0, n1 = z3.Ints("d0 d1")
+        si = z3.Real("si")
+        it.ctx.assume(z3.And(n0 >= 2, n1 >= 2, si > 0))
+        ts = A.fresh_array("ts", "float64", (n0, n1))
+        seen = []
+
+        def ff(it_, a, k):
+            import inspect
+            ba = inspect.signature(F._freq_filter).bind(*a, **k)
+            ba.apply_defaults()
+            seen.append(dict(ba.arguments))
+            return A.fresh_array("filtered", "float64", a[0].shape)
+        it.session.contracts[F._freq_filter] = ff
+        for name, nb in (("lp", 2), ("hp", 2), ("bp", 4)):
+            for axis in (None, 0, 1, -1, -2):
+                b = [SV(z3.Real(f"c{q}")) for q in range(nb)]
+                seen.clear()
+                kw = {} if axis is None else {"axis": axis}
+                out = run_function(it, getattr(F, name), [ts, SV(si), b], kw)
+                ok = len(seen) == 1 and seen[0]["ts"] is ts and seen[0]["typ"] == name and seen[0]["axis"] == axis and isinstance(seen[0]["si"], SV) and z3.is_true(z3.simplify(term(seen[0]["si"]) == si)) \
+                    and len(it.to_list(seen[0]["b"])) == nb and all(z3.is_true(z3.simplify(term(u) == term(v))) for u, v in zip(it.to_list(seen[0]["b"]), b))
+                it.ctx.oblige(f"wrapper.{name}.axis{axis}", z3.BoolVal(bool(ok) and isinstance(out, A.SArr)), "post",
+                              f"{name}(ts, si, b, axis) is _freq_filter(ts, si, b, axis=axis, typ='{name}') - in particular along the caller's axis")
+    S.explore(body)
+
+
 @harness(PROPERTY, "filters_leave_their_arguments_alone", functions=["ibldsp.fourier:_freq_filter"],
          clause="low-pass plus high-pass with the same corners is the identity, band-pass is their product: for corners handed over as an array, and handed over again")
 def h_filters_frame(H):
